@@ -310,3 +310,36 @@ theorem C01_no_failure_dom (w : World) (h : validB w = true) : ∃ g, hydrate w 
   C01_no_failure w (validB_sound w h)
 
 end Pgs.AST
+
+/-! ### non-vacuity: a concrete two-file request (enum, map field, cross-file message reference,
+    service, extension) satisfies the hypothesis, so the theorems speak about something -/
+namespace Pgs.AST
+def exA : FileD where
+  name := "a.proto"
+  pkg := "p"
+  syn := "proto3"
+  deps := []
+  publicDeps := []
+  enums := [⟨"E", [⟨"Z", 0⟩]⟩]
+  msgs := .cons ⟨"M", false, [⟨"e", 1, 1, 14, ".p.E", none, false, ""⟩, ⟨"m", 2, 3, 11, ".p.M.MEntry", none, false, ""⟩], [], [], []⟩
+            (.cons ⟨"MEntry", true, [⟨"key", 1, 1, 9, "", none, false, ""⟩, ⟨"value", 2, 1, 11, ".p.M", none, false, ""⟩], [], [], []⟩ .nil .nil) .nil
+  services := []
+  exts := []
+  locs := []
+  goPackage := ""
+def exB : FileD where
+  name := "b.proto"
+  pkg := "q"
+  syn := ""
+  deps := ["a.proto"]
+  publicDeps := []
+  enums := []
+  msgs := .cons ⟨"N", false, [⟨"x", 1, 1, 11, ".p.M", none, false, ""⟩], [], [], []⟩ .nil .nil
+  services := [⟨"S", [⟨"Do", ".p.M", ".q.N", false, false⟩]⟩]
+  exts := [⟨"ext", 100, 1, 14, ".p.E", none, false, ".q.N"⟩]
+  locs := []
+  goPackage := ""
+def exW : World := ⟨[exA, exB], ["b.proto"], false⟩
+theorem exW_valid : Valid exW := validB_sound exW (by decide)
+example : ∃ g, hydrate exW = .ok g ∧ g.seen = (declared exW).reverse := C01_no_failure exW exW_valid
+end Pgs.AST
